@@ -370,3 +370,76 @@ def many_datasets__twin(n: int, again: int) -> bool:
     post: _ == True
     """
     return not many_datasets(n, again)
+
+
+# ---------------------------------------------------------------------------------------------------------------
+# results of an entry: the latest committed results are what a reader gets
+
+class Res:
+    def __init__(self, tok):
+        self.tok = tok
+
+    def to_json(self, path):
+        _write(path, ('res', self.tok))
+
+
+class MER(ME):
+    def __init__(self, m, rtok):
+        ME.__init__(self, m)
+        self._r = None if rtok == 0 else Res(rtok)
+
+    @property
+    def modelfit_results(self):
+        return self._r
+
+
+def _read_results(path):
+    v = FS.files.get(str(path))
+    if v is None:
+        raise FileNotFoundError(str(path))
+    return v
+
+
+ld.read_results = _read_results
+
+
+def results_latest(r1: int, r2: int, other_between: bool) -> bool:
+    """
+    One model is stored with results r1, then again with results r2 (0 = no results object); optionally another
+    model with its own results is stored in between.  A reader then gets r2 (or r1 when the second store carried no
+    results), and the other model's results are its own.
+    pre: 0 <= r1 <= 2 and 0 <= r2 <= 2
+    post: _ == True
+    """
+    global FS
+    FS = MemFS(-1)
+    m1, m2 = Mod(1, 1), Mod(2, 1)
+
+    def store(m, r):
+        with _db().transaction(MER(m, r)) as txn:
+            txn.store_model_entry()
+
+    def results(m):
+        with _db().snapshot(ME(m)) as sn:
+            return sn.retrieve_modelfit_results()
+    store(m1, r1)
+    if other_between:
+        store(m2, 5)
+    store(m1, r2)
+    want = r2 if r2 != 0 else r1
+    got = results(m1)
+    if want == 0:
+        ok = got is None
+    else:
+        ok = got == ('res', want)
+    if other_between:
+        ok = ok and results(m2) == ('res', 5)
+    return ok
+
+
+def results_latest__twin(r1: int, r2: int, other_between: bool) -> bool:
+    """
+    pre: 0 <= r1 <= 2 and 0 <= r2 <= 2
+    post: _ == True
+    """
+    return not results_latest(r1, r2, other_between)
